@@ -47,12 +47,14 @@ pub struct Spec {
     pub base: u64,
     /// header settings variant
     pub hv: u8,
+    /// leaf directories in level order (deepest first) instead of depth-first post-order
+    pub level_order: bool,
 }
 
 impl Spec {
     pub fn to_json(&self) -> Value {
         json!({"kind":"foreign","order":self.order,"gap":self.gap,"root_gap":self.root_gap,"shape":format!("{:?}",self.shape),"run":self.run,
-               "offs":format!("{:?}",self.offs),"n":self.n,"meta":self.meta,"comp":self.comp,"base":self.base.to_string(),"hv":self.hv})
+               "offs":format!("{:?}",self.offs),"n":self.n,"meta":self.meta,"comp":self.comp,"base":self.base.to_string(),"hv":self.hv,"level_order":self.level_order})
     }
     pub fn from_json(v: &Value) -> Spec {
         Spec {
@@ -67,6 +69,7 @@ impl Spec {
             comp: v["comp"].as_u64().unwrap_or(1) as u8,
             base: v["base"].as_str().and_then(|s| s.parse().ok()).unwrap_or(0),
             hv: v["hv"].as_u64().unwrap_or(0) as u8,
+            level_order: v["level_order"].as_bool().unwrap_or(false),
         }
     }
 }
@@ -199,7 +202,7 @@ fn tree_of(shape: Shape, es: &[SEntry]) -> Vec<Node> {
 pub fn build(s: &Spec) -> Foreign {
     let (es, data) = tiles_of(s);
     let root = tree_of(s.shape, &es);
-    let lay = Layout { order: ORDERS[s.order % 6], gap: s.gap, root_gap: s.root_gap, leaves_child_first: false, leaf_gap: if s.gap > 0 { 2 } else { 0 } };
+    let lay = Layout { order: ORDERS[s.order % 6], gap: s.gap, root_gap: s.root_gap, leaves_child_first: s.level_order, leaf_gap: if s.gap == 13 { 2 } else { 0 } };
     let meta: Option<&[u8]> = match s.meta {
         0 => None,
         1 => Some(b"{}"),
@@ -248,7 +251,11 @@ pub fn product(thorough: bool) -> Vec<Spec> {
                         for meta in 0..3u8 {
                             for comp in 1..=4u8 {
                                 idx += 1;
-                                out.push(Spec { order: o, gap: g, root_gap: rg, shape, run, offs, n, meta, comp, base: [0u64, 1, 5, 1 << 40][(idx % 4) as usize], hv: (idx % 4) as u8 });
+                                out.push(Spec { order: o, gap: g, root_gap: rg, shape, run, offs, n, meta, comp, base: [0u64, 1, 5, 1 << 40][(idx % 4) as usize], hv: (idx % 4) as u8, level_order: false });
+                                // nested shapes also in level order (sibling leaves back to back, children elsewhere)
+                                if shape == Shape::Depth3 && n >= 3 {
+                                    out.push(Spec { order: o, gap: g, root_gap: rg, shape, run, offs, n, meta, comp, base: [0u64, 1, 5, 1 << 40][(idx % 4) as usize], hv: (idx % 4) as u8, level_order: true });
+                                }
                             }
                         }
                     }
